@@ -109,21 +109,38 @@ Proof.
     destruct (is_canceled w1 c); [exact J1|]. destruct (rs_exceeded (get_rstate w1 q)); [exact J1|].
     destruct (is_failure (r_fpol cfg) (pr_out r)) eqn:Ef.
     + (* a failed attempt: OnFailure, then OnAbort or OnRetriesExceeded or neither *)
-      destruct (retry_failure_events cfg q c (with_failure r) w1) as (Ek & Hdone & _).
+      destruct (retry_failure_events cfg q c (with_failure r) w1) as (Ek & _ & Hdone & _).
       set (ab := is_abortable (r_abort cfg) (pr_out (with_failure r))) in *.
+      set (w0 := pause (ev_with_result w1 c KPolFailure q (with_failure r)) (r_lsn_dur cfg)) in *.
       set (ex := (negb (r_max_retries cfg =? -1) && (r_max_retries cfg <? rs_failed (get_rstate w1 q) + 1))
-                 || (negb (r_max_duration cfg =? 0) && (r_max_duration cfg <? w_now w1 - w_start w1))) in *.
+                 || (negb (r_max_duration cfg =? 0) && (r_max_duration cfg <? w_now w0 - w_start w0))) in *.
       destruct (retry_on_failure cfg q c (with_failure r) w1) as [r2 w2]. cbn [fst snd] in *.
-      assert (St : VJ w2 /\ (ab || ex = false -> vst q w2 = Some VFailed)).
+      (* OnFailure is logged; while its listener runs only events that no automaton objects to are logged (timers firing,
+         attempts finishing), and none that the automaton of q reads *)
+      assert (F0 : VJ w0 /\ vst q w0 = Some VFailed).
       { assert (F : forall pos, vstk pos ((KPolFailure, q) :: kps w1) <> None /\ (pos = q -> vstk pos ((KPolFailure, q) :: kps w1) = Some VFailed)).
         { intros pos. cbn [vstk]. specialize (J1 pos). unfold vst in J1. destruct (vstk pos (kps w1)) as [v|]; [|contradiction].
           unfold vstepk. cbn [fst snd]. destruct (Nat.eqb q pos) eqn:E.
           - split; [discriminate|reflexivity].
           - split; [discriminate|]. intros ->. rewrite Nat.eqb_refl in E. discriminate. }
+        set (wa := ev_with_result w1 c KPolFailure q (with_failure r)) in *.
+        assert (Ka : kps wa = (KPolFailure, q) :: kps w1) by (subst wa; apply kps_ev).
+        assert (Ja : VJ wa) by (intros pos; unfold vst; rewrite Ka; apply (proj1 (F pos))).
+        assert (Va : vst q wa = Some VFailed) by (unfold vst; rewrite Ka; apply (proj2 (F q)); reflexivity).
         split.
-        - intros pos. unfold vst. rewrite Ek. destruct (F pos) as [F1 F2].
-          destruct ab, ex; cbn [negb andb orb app]; try exact F1; apply after_failed; auto.
-        - intros Hn. unfold vst. rewrite Ek. destruct ab, ex; try discriminate. cbn [negb andb orb app]. apply (proj2 (F q)). reflexivity. }
+        - assert (Rj : VJrel wa w0) by (subst w0; inst_vj same_pause). exact (Rj Ja).
+        - assert (Rv : vsame q wa w0) by (subst w0; inst_v q same_pause). unfold vsame in Rv. rewrite Rv. exact Va. }
+      destruct F0 as [J0 V0].
+      assert (St : VJ w2 /\ (ab || ex = false -> vst q w2 = Some VFailed)).
+      { assert (Fk : forall k, k = KAbort \/ k = KRetriesExceeded -> forall pos, vstk pos ((k, q) :: kps w0) <> None).
+        { intros k Hk pos. change (vstepk pos (k, q) (vstk pos (kps w0)) <> None).
+          destruct (Nat.eq_dec pos q) as [->|Hne].
+          - unfold vst in V0. rewrite V0. unfold vstepk. cbn [fst snd]. rewrite Nat.eqb_refl. destruct Hk as [->| ->]; discriminate.
+          - rewrite vstep_neutral; [apply J0|right; cbn [snd]; auto]. }
+        split.
+        - intros pos. unfold vst. rewrite Ek.
+          destruct ab, ex; cbn [negb andb orb app]; try (apply Fk; auto); apply J0.
+        - intros Hn. unfold vst. rewrite Ek. destruct ab, ex; try discriminate. cbn [negb andb orb app]. exact V0. }
       destruct St as [J2 P2].
       destruct (pr_done r2) eqn:Ed; [exact J2|].
       assert (Hn : ab || ex = false) by (destruct (ab || ex) eqn:E; [specialize (Hdone eq_refl); discriminate|reflexivity]).
